@@ -32,6 +32,8 @@ type ttModel struct {
 	regOf                    map[*ssa.Function]*Region
 	report                   *ssa.Function // computes now - start
 	sub                      *ssa.Call
+	subInner                 *ssa.Call // the (time.Time).Sub itself when sub is a call of a small duration helper
+	subNow                   ssa.Value // the clock value the start time is subtracted from, as seen in the report function
 }
 
 // resultOfCall: v is result idx (or any result, idx < 0) of call, directly or dereferenced (a returned pointer).
@@ -166,7 +168,36 @@ func findTT(c *Ctx, rule string) *ttModel {
 			for _, a := range call.Call.Args {
 				if p.AnyFrom(a, eng.Plain, func(v ssa.Value) bool { return eng.IsFieldLoad(v, m.acT, m.timeField) }) {
 					m.report, m.sub = f, call
+					m.subInner, m.subNow = call, call.Call.Args[0]
 				}
+			}
+		}
+	}
+	// the subtraction may sit in a small helper of the record (unreportedTime(now) = now.Sub(a.startTime)): the report function
+	// is then its caller and the helper call stands for the subtraction
+	if m.report != nil && m.report.Signature.Results().Len() == 1 && m.report.Signature.Results().At(0).Type().String() == "time.Duration" {
+		h := m.report
+		fwd := true
+		for _, r := range eng.Returns(h) {
+			if p.Resolve(retVal(p, r)) != ssa.Value(m.sub) {
+				fwd = false
+			}
+		}
+		k := -1
+		for i, pa := range h.Params {
+			if p.Resolve(m.sub.Call.Args[0]) == ssa.Value(pa) {
+				k = i
+			}
+		}
+		var sites []eng.Site
+		for _, st := range p.CallSitesOf(h) {
+			if !p.IsTestSupport(st.Fn) {
+				sites = append(sites, st)
+			}
+		}
+		if fwd && k >= 0 && len(sites) == 1 {
+			if sc, ok := sites[0].Ins.(*ssa.Call); ok && k < len(sc.Call.Args) {
+				m.report, m.sub, m.subNow = sites[0].Fn, sc, sc.Call.Args[k]
 			}
 		}
 	}
@@ -679,8 +710,8 @@ func ruleReset(c *Ctx, m *ttModel) {
 	}
 	key := short(report)
 	rreg := c.NewRegion(report, 2, inProm)
-	tNow := sub.Call.Args[0] // receiver of Sub
-	okRecv := !p.AnyFrom(tNow, eng.Plain, func(v ssa.Value) bool { return eng.IsFieldLoad(v, acT, m.timeField) })
+	tNow := m.subNow // receiver of Sub
+	okRecv := !p.AnyFrom(m.subInner.Call.Args[0], eng.Plain, func(v ssa.Value) bool { return eng.IsFieldLoad(v, acT, m.timeField) })
 	c.CheckAt("RESET", key+":duration-is-now-minus-start", sub, okRecv, "the subtraction is start - now instead of now - start")
 	// every counter Add in the report code takes Seconds() of the same Sub result
 	nAdd := 0
